@@ -19,6 +19,7 @@
 From Coq Require Import List ZArith Reals.
 From Coquelicot Require Import Coquelicot.
 From ML Require Import Ops Vec VecR MatR Objectives NCAGrad C10Proof C10Grad.
+From ML Require Import PinsC10.
 Import ListNotations.
 Open Scope R_scope.
 
@@ -73,3 +74,7 @@ Proof.
     + apply (mlkr_gradient_is_derivative k d L E X yv HL HE HX Hn).
 Qed.
 Print Assumptions C10_mlkr_gradient.
+
+(* text-level tie: the functions this property's hand-written model and harness were written from are unchanged
+   (digests regenerated from /repo on every run; Proofs/PinsC10.v) *)
+Definition C10_source_pins := pins_C10_ok.
